@@ -43,6 +43,11 @@ Section Facts.
     eapply perm_trans; [apply insert_by_perm | now apply perm_skip].
   Qed.
 
+  Lemma stable_sort_in x l : In x (stable_sort lt l) <-> In x l.
+  Proof.
+    split; apply Permutation_in; [|apply Permutation_sym]; apply stable_sort_perm.
+  Qed.
+
   Lemma equiv_sym a b : equiv lt a b = equiv lt b a.
   Proof. unfold equiv. apply andb_comm. Qed.
 
@@ -353,6 +358,26 @@ Section Facts.
     Qed.
   End Merge.
 End Facts.
+
+(* the sort only looks at the comparison on the members of its input *)
+Lemma insert_by_ext {A} (lt lt' : A -> A -> bool) x l :
+  (forall y, In y l -> lt y x = lt' y x) -> insert_by lt x l = insert_by lt' x l.
+Proof.
+  induction l as [|y r IH]; intro H; [reflexivity|]. cbn [insert_by].
+  rewrite <- (H y (or_introl eq_refl)). rewrite IH; [reflexivity|].
+  intros z Hz. apply H. now right.
+Qed.
+
+Lemma stable_sort_ext {A} (lt lt' : A -> A -> bool) l :
+  (forall a b, In a l -> In b l -> lt a b = lt' a b) -> stable_sort lt l = stable_sort lt' l.
+Proof.
+  induction l as [|x r IH]; intro H; [reflexivity|].
+  change (insert_by lt x (stable_sort lt r) = insert_by lt' x (stable_sort lt' r)).
+  rewrite <- IH.
+  - apply insert_by_ext. intros y Hy. apply stable_sort_in in Hy.
+    apply H; [now right | now left].
+  - intros a b Ha Hb. apply H; now right.
+Qed.
 
 (* ------------------------------------------------------------------------------------ *)
 (* constructions of strict weak orders                                                  *)
